@@ -242,8 +242,42 @@ func C17(run *core.Run) {
 			}
 		}
 	}
+	// the same colours with an alpha channel that is not fully opaque must not come out as the (opaque) keyword or hex
+	checkAlpha := func(table, hex, name string) {
+		std := strings.TrimPrefix(strings.ToLower(hex), "#")
+		if len(std) == 3 {
+			std = string([]byte{std[0], std[0], std[1], std[1], std[2], std[2]})
+		}
+		if len(std) != 6 {
+			return
+		}
+		for _, alpha := range []string{"f0", "fe", "0f", "7f", "80", "fc"} {
+			run.Eval()
+			in := "a{color:#" + std + alpha + "}"
+			out, err, pan := minifyBytes(cm, "text/css", []byte(in))
+			if err != nil || pan != "" {
+				viol(table, hex+"="+name, fmt.Sprintf("css minifier failed on %q", in))
+				continue
+			}
+			val := strings.ToLower(strings.TrimSuffix(strings.TrimPrefix(string(out), "a{color:"), "}"))
+			ok := false
+			switch {
+			case val == "#"+std+alpha:
+				ok = true
+			case len(val) == 5 && val[0] == '#' && std[0] == std[1] && std[2] == std[3] && std[4] == std[5] && alpha[0] == alpha[1] &&
+				val[1] == std[0] && val[2] == std[2] && val[3] == std[4] && val[4] == alpha[0]:
+				ok = true
+			case strings.HasPrefix(val, "rgba(") || strings.HasPrefix(val, "rgb(") && strings.Contains(val, "/"):
+				ok = true // another notation with an alpha component: its value is C04's subject
+			}
+			if !ok {
+				viol(table, hex+"="+name, fmt.Sprintf("through the CSS minifier: translucent %q -> %q lost or changed its alpha channel", in, out))
+			}
+		}
+	}
 	for hex, name := range mcss.ShortenColorHex {
 		checkColor("css.ShortenColorHex", hex, string(name))
+		checkAlpha("css.ShortenColorHex", hex, string(name))
 	}
 	for name, hex := range mcss.ShortenColorName {
 		checkColor("css.ShortenColorName", string(hex), name.String())
